@@ -139,6 +139,16 @@ CHECKS = {
             "Trusted: harness; the file layout parsed in checks/c17.py. Known finding: cuts inside the trailing "
             "relocation table are accepted (format has no count/terminator).",
             "DESIGN.md section 2, C17"),
+    "C16": ("fault_enumeration",
+            "allocation-failure injection by link-time interposition (--wrap=malloc...), one forked ASan+LSan process per fault point, outcome classification against the fault-free run",
+            "For five scenarios covering the API groups, the k-th allocation made inside libyara calls is made to fail "
+            "(alone, and followed by all later ones) for every k up to 400 and a stride beyond (every k in the "
+            "thorough tier, 77000 fault points); a child must not crash, leak, return success with results different "
+            "from the fault-free run, or leave the library unusable (sentinel compile+scan afterwards).",
+            "Trusted: the wrap layer (harness/oom_wrap.c) and the classification in checks/c16.py; libcrypto/libc internal "
+            "allocations are not failed. 26 leak / swallowed-failure sites found by the exhaustive run are listed as known "
+            "findings by (kind, site).",
+            "DESIGN.md section 2, C16"),
 }
 
 NOT_YET = "check not built yet in this round (planned in DESIGN.md section 2); nothing is claimed for it"
